@@ -73,6 +73,9 @@ def generate_all(tier, order, only=None):
         idx = [only]
     if order == "reverse":
         idx = idx[::-1]
+    elif order == "rotated":
+        k = len(idx) // 2
+        idx = idx[k:][::-1] + idx[:k]
     out = {}
     for i in idx:
         label, doc, extra = fam[i]
@@ -93,10 +96,14 @@ def generate_all(tier, order, only=None):
 
 def worker_main(argv):
     tier, outfile = argv[0], argv[1]
-    only = int(argv[2]) if len(argv) > 2 else None
-    res = {"forward": generate_all(tier, "forward", only)}
+    only = int(argv[2]) if len(argv) > 2 and argv[2] != "-" else None
+    first = argv[3] if len(argv) > 3 else "forward"
+    # the order of the two passes differs between processes: state carried from one document to the next (a module-level
+    # cache, a mutated shared default) then shows up as a difference between processes
+    second = {"forward": "reverse", "reverse": "forward", "rotated": "forward"}[first]
+    res = {first: generate_all(tier, first, only)}
     if only is None:
-        res["reverse"] = generate_all(tier, "reverse")
+        res[second] = generate_all(tier, second)
     with open(outfile, "w") as fh:
         json.dump(res, fh)
 
@@ -116,17 +123,17 @@ def plan(tier, seed):
         seeds, cov = procs.select_seeds(PROBE_SETS, must_cover={0}, search=range(0, 160 if tier == "quick" else 400), cap=8 if tier == "quick" else 20, pool=pool)
     scratch = tempfile.mkdtemp(prefix="verif_c09_")
     _SCRATCH[0] = scratch
-    items = [("seed", s, tier, scratch) for s in seeds]
+    items = [("seed", s, tier, scratch, ("forward", "reverse", "rotated")[n % 3]) for n, s in enumerate(seeds)]
     nfam = len(family(tier))
     if tier == "thorough":
         items += [("alone", lo, min(nfam, lo + 40), tier, scratch) for lo in range(0, nfam, 40)]
         items += [("cli", tier, scratch)]
-    return {"items": items, "meta": {"seeds": seeds, "probe_sets": len(PROBE_SETS), **cov, "documents": nfam, "passes_per_process": ["forward", "reverse"], "scratch": scratch, "exhaustive": bool(cov["must_cover_complete"])}}
+    return {"items": items, "meta": {"seeds": seeds, "probe_sets": len(PROBE_SETS), **cov, "documents": nfam, "passes_per_process": "two passes per process; the first pass is forward, reverse or rotated depending on the process", "scratch": scratch, "exhaustive": bool(cov["must_cover_complete"])}}
 
 
-def run_worker(seed, tier, outfile, only=None):
+def run_worker(seed, tier, outfile, only=None, first="forward"):
     env = procs.env_for(seed, None)
-    cmd = [sys.executable, "-m", "mc.checks.c09", "--worker", tier, outfile] + ([str(only)] if only is not None else [])
+    cmd = [sys.executable, "-m", "mc.checks.c09", "--worker", tier, outfile, str(only) if only is not None else "-", first]
     r = subprocess.run(cmd, env=env, capture_output=True, text=True, cwd=runner.VERIF)
     if r.returncode != 0:
         raise RuntimeError("worker failed: %s" % r.stderr[-500:])
@@ -137,19 +144,19 @@ def run_worker(seed, tier, outfile, only=None):
 def work(item):
     st = runner.Stats()
     if item[0] == "seed":
-        _, seed, tier, scratch = item
+        _, seed, tier, scratch, first = item
         outfile = os.path.join(scratch, "seed_%d.json" % seed)
-        res = run_worker(seed, tier, outfile)
-        for pas in ("forward", "reverse"):
+        res = run_worker(seed, tier, outfile, first=first)
+        for pas in sorted(res):
             for i, entry in res[pas].items():
                 st.sets["d"].add((int(i), "seed%d/%s" % (seed, pas), digest(entry)))
                 st.add("evaluations")
                 st.add("traces")
                 if entry["names"]:
                     st.add("nontrivial")
-        st.add("states", len(res["forward"]))
-        st.add("transitions", 2 * len(res["forward"]))
-        st.sample({"seed": seed, "documents": len(res["forward"])})
+        st.add("states", len(res[first]))
+        st.add("transitions", 2 * len(res[first]))
+        st.sample({"seed": seed, "first_pass": first, "documents": len(res[first])})
     elif item[0] == "alone":
         _, lo, hi, tier, scratch = item
         for i in range(lo, hi):
